@@ -618,3 +618,15 @@ def _dasel(it, f, args, kw, node):
     used('xarray.DataArray.sel(**labels) with label lists: returns the selected sub-cube as a new array (assumed contract)')
     it.ctx.event('sel', source=f.bound, labels=dict(kw))
     return DArr(Store(('sel', f.bound.store.uid, tuple(sorted((k, tuple(v) if isinstance(v, (list, tuple)) else v) for k, v in kw.items()))), None))
+
+
+@reg('np.array_equal')
+def _array_equal(it, f, args, kw, node):
+    """True for the very same array (same storage, whole views); otherwise an unknown truth value (both outcomes explored)"""
+    a, b = args[0], args[1]
+    if isinstance(a, NDArr) and isinstance(b, NDArr) and a.store is b.store and a.view == b.view:
+        r = True
+    else:
+        r = it.ctx.branch(it.ctx.fresh_bool('array_equal'), 'np.array_equal')
+    it.ctx.event('array_equal', a=a, b=b, result=r)
+    return r
